@@ -612,7 +612,8 @@ func (m *Machine) reach(label string) {
 // ---------------- explorer ----------------
 
 type Explorer struct {
-	shared    map[ssa.Instruction]bool
+	shared    map[ssa.Instruction]bool // scheduling points of THIS round (frozen while the round runs)
+	pending   map[ssa.Instruction]bool // racing sites found in this round: scheduling points of the next one
 	sharedNew bool
 	races     []RaceReport
 	mu        sync.Mutex
@@ -638,10 +639,15 @@ func (e *Explorer) enqueue(m *Machine, prefix []Decision) {
 func (e *Explorer) addSharedSite(s ssa.Instruction) bool {
 	e.mu.Lock()
 	defer e.mu.Unlock()
-	if e.shared[s] {
+	if e.shared[s] || e.pending[s] {
 		return false
 	}
-	e.shared[s] = true
+	// not added to e.shared: that would change the scheduling points in the middle of the round and the
+	// recorded decision prefixes of other workers would no longer replay
+	if e.pending == nil {
+		e.pending = map[ssa.Instruction]bool{}
+	}
+	e.pending[s] = true
 	e.sharedNew = true
 	return true
 }
@@ -872,6 +878,9 @@ func runHarnessOnce(ld *Loaded, fn *ssa.Function, cfg *HarnessCfg, nworkers int,
 	ex.mu.Unlock()
 	res.WallS = time.Since(t0).Seconds()
 	res.Races = ex.races
+	for site := range ex.pending {
+		shared[site] = true
+	}
 	return res, ex.sharedNew && cfg.Sched > 0
 }
 
